@@ -42,9 +42,14 @@ DESCS = [None, "Short text", LONG, URL]
 MODES = [Option.NO_VALUE, Option.REQUIRED_VALUE, Option.OPTIONAL_VALUE, Option.REQUIRED_VALUE | Option.MULTI_VALUED]
 
 
-def build(bits, width):
+LONG_NAME = ("My Quite Long Application Name For Rather Narrow Terminals", "10.20.30-beta.4+build.2026")
+
+
+def build(bits, width, long_name=False):
     (sub1_hidden, sub2_disabled, beta_hidden, gamma_disabled, d_alpha, d_opt, d_arg, d_par, mode_opt, opt_default, mode_par, arg_multi, arg_default, long_pref) = bits
-    cfg = DefaultApplicationConfig("app", "1.0")
+    cfg = DefaultApplicationConfig("app", LONG_NAME[1] if long_name else "1.0")
+    if long_name:
+        cfg.set_display_name(LONG_NAME[0])       # name + version do not fit on one line of a narrow terminal
     cfg.set_catch_exceptions(False)
     cfg.set_terminate_after_run(False)
     calls = []
@@ -196,8 +201,14 @@ def _help_case(bits, width):
 
 def _inherited_case(bits, width, ind=0):
     (sub1_hidden, sub2_disabled, beta_hidden, gamma_disabled, d_alpha, d_opt, d_arg, d_par, mode_opt, opt_default, mode_par, arg_multi, arg_default, long_pref) = bits
-    app, calls = build(bits, width)
+    app, calls = build(bits, width, long_name=True)
     alpha = app.get_command("alpha")
+    page = _render(ApplicationHelp(app), width)
+    if not _fits(page, width) or any(w not in _flat(page) for w in LONG_NAME[0].split() + [LONG_NAME[1]]):
+        return False                 # the name/version line of the application page is wrapped like everything else
+    s0, o0, e0 = _run(app, ["--version"])
+    if s0 != 0 or any(w not in _flat(o0) for w in LONG_NAME[0].split() + [LONG_NAME[1]]):
+        return False
     # ---- pages rendered with an indentation of their own still fit the terminal and list the same elements
     if ind:
         for comp in (ApplicationHelp(app), CommandHelp(alpha), CommandHelp(alpha.get_sub_command("sub1"))):
